@@ -42,6 +42,7 @@ import (
 	"github.com/AliceO2Group/Control/common/system"
 	"github.com/AliceO2Group/Control/common/utils"
 	"github.com/AliceO2Group/Control/common/utils/uid"
+	"github.com/AliceO2Group/Control/common/verifhook"
 	event2 "github.com/AliceO2Group/Control/core/integration/odc/event"
 	"github.com/AliceO2Group/Control/core/task"
 	"github.com/AliceO2Group/Control/core/task/sm"
@@ -130,6 +131,7 @@ func NewEnvManager(tm *task.Manager, incomingEventCh chan event.Event) *Manager 
 					instance.mu.RLock()
 					thisEnvCh, ok := instance.pendingTeardownsCh[typedEvent.GetEnvironmentId()]
 					instance.mu.RUnlock()
+					verifhook.Point("envman.released.beforeSend")
 
 					if ok {
 						thisEnvCh <- typedEvent
@@ -168,6 +170,7 @@ func NewEnvManager(tm *task.Manager, incomingEventCh chan event.Event) *Manager 
 					instance.mu.RLock()
 					thisEnvCh, ok := instance.pendingStateChangeCh[typedEvent.GetEnvironmentId()]
 					instance.mu.RUnlock()
+					verifhook.Point("envman.statechanged.beforeSend")
 					// If environment is not in state transition message is being propagated through task/manager
 					if ok {
 						thisEnvCh <- typedEvent
@@ -207,6 +210,7 @@ func (envs *Manager) CreateEnvironment(workflowPath string, userVars map[string]
 	// loading the workflow in order to compare the currently used detectors with the detectors required by the newly
 	// created environment.
 	alreadyActiveDetectors := envs.GetActiveDetectors()
+	verifhook.Point("envman.create.afterDetectorRead")
 
 	lastRequestUser := &evpb.User{}
 	lastRequestUserJ, ok := userVars["last_request_user"]
@@ -711,6 +715,7 @@ func (envs *Manager) TeardownEnvironment(environmentId uid.ID, force bool) error
 	log.WithField("method", "TeardownEnvironment").
 		WithField("level", infologger.IL_Devel).
 		Debug("envman write lock")
+	verifhook.Point("envman.teardown.beforeCloseStateCh")
 	envs.mu.Lock()
 	// we kill all tasks that aren't cleanup hooks
 	taskmanMessage := task.NewEnvironmentMessage(taskop.ReleaseTasks, environmentId, tasksToRelease, nil)
